@@ -10,6 +10,7 @@ mod c_proc;
 mod c_walk;
 mod c_walktar;
 mod c_strm;
+mod c_prt;
 mod c_boxp;
 mod c_asm;
 mod c_time;
@@ -86,6 +87,7 @@ fn main() {
         "gate" => if replay { replay_loop(&mut out, c_gate::replay_line) } else { c_gate::run(&opts, &mut out) },
         "proc" => if replay { replay_loop(&mut out, c_proc::replay_line) } else { c_proc::run(&opts, &mut out) },
         "walk" => if replay { replay_loop(&mut out, c_walk::replay_line) } else { c_walk::run(&opts, &mut out) },
+        "prt" => if replay { replay_loop(&mut out, c_prt::replay_line) } else { c_prt::run(&opts, &mut out) },
         "strm" => if replay { replay_loop(&mut out, c_strm::replay_line) } else { c_strm::run(&opts, &mut out) },
         "walktar" => if replay { replay_loop(&mut out, c_walktar::replay_line) } else { c_walktar::run(&opts, &mut out) },
         "boxp" => if replay { replay_loop(&mut out, c_boxp::replay_line) } else { c_boxp::run(&opts, &mut out) },
